@@ -371,6 +371,28 @@ def host_leaks(table: Dict[str, Any]) -> List[str]:
     return sorted(out)
 
 
+def in_fresh_thread(fn: Callable[..., Any], *args: Any) -> Any:
+    """Run fn(*args) in a brand-new thread and return its result (exceptions are re-raised).  A run
+    must not inherit interpreter thread state from the run before it: in CPython 3.12.1 a thread
+    that hit the C recursion limit does not always get its remaining budget back."""
+    import threading
+
+    box: Dict[str, Any] = {}
+
+    def body() -> None:
+        try:
+            box["ok"] = fn(*args)
+        except BaseException as ex:  # noqa: BLE001
+            box["ex"] = ex
+
+    t = threading.Thread(target=body, name="sim-run", daemon=True)
+    t.start()
+    t.join()
+    if "ex" in box:
+        raise box["ex"]
+    return box["ok"]
+
+
 # --------------------------------------------------------------------------------------------
 # outcome fingerprints
 
